@@ -155,20 +155,42 @@ theorem trimSpace_idem (s : Str) : trimSpace (trimSpace s) = trimSpace s := by
 
 /-! ## Filtering -/
 
+/-- `FilterFragments` keeps exactly the fragments that fail `isRemoved` -/
+theorem filterFragments_eq (res : Result) (idx : Int) (fs : List Frag) (ph : Rat) :
+    filterFragments res idx fs ph = fs.filter (fun f => !isRemoved res idx fs ph f) := by
+  unfold filterFragments isRemoved
+  split <;> rfl
+
+theorem isRemoved_wordLevel {res : Result} {idx : Int} {fs : List Frag} {ph : Rat}
+    (h : isCharacterLevel fs = false) (f : Frag) :
+    isRemoved res idx fs ph f = isInHeaderFooter res idx (bands res.cfg fs ph) f := by
+  simp [isRemoved, h]
+
+theorem isRemoved_charLevel {res : Result} {idx : Int} {fs : List Frag} {ph : Rat}
+    (h : isCharacterLevel fs = true) (f : Frag) :
+    isRemoved res idx fs ph f = (removedLines res idx fs ph).any fun g => g.contains f := by
+  simp [isRemoved, h]
+
 theorem mem_filterFragments {res : Result} {idx : Int} {fs : List Frag} {ph : Rat} {f : Frag} :
+    f ∈ filterFragments res idx fs ph ↔ f ∈ fs ∧ isRemoved res idx fs ph f = false := by
+  simp [filterFragments_eq, List.mem_filter]
+
+/-- on a word-level page every fragment is judged by itself -/
+theorem mem_filterFragments_wordLevel {res : Result} {idx : Int} {fs : List Frag} {ph : Rat} {f : Frag}
+    (h : isCharacterLevel fs = false) :
     f ∈ filterFragments res idx fs ph ↔
-      f ∈ fs ∧ isInHeaderFooter res idx (bands res.cfg fs ph) (isCharacterLevel fs) f = false := by
-  simp [filterFragments, List.mem_filter]
+      f ∈ fs ∧ isInHeaderFooter res idx (bands res.cfg fs ph) f = false := by
+  rw [mem_filterFragments, isRemoved_wordLevel h]
 
 /-- regions of one kind in a detection result -/
 def Result.regions (res : Result) : Kind → List Region
   | .header => res.headers
   | .footer => res.footers
 
-theorem isInHeaderFooter_eq_true {res : Result} {idx : Int} {b : Bands} {cl : Bool} {f : Frag} :
-    isInHeaderFooter res idx b cl f = true ↔
+theorem isInHeaderFooter_eq_true {res : Result} {idx : Int} {b : Bands} {f : Frag} :
+    isInHeaderFooter res idx b f = true ↔
       ∃ k r, r ∈ res.regions k ∧ idx ∈ r.pages ∧ inRegion k b f = true ∧
-        (cl = true ∨ regionMatches r f.text = true) := by
+        regionMatches r f.text = true := by
   simp only [isInHeaderFooter, Bool.or_eq_true, List.any_eq_true, regionHits, Bool.and_eq_true,
     List.contains_iff_mem]
   constructor
@@ -180,21 +202,48 @@ theorem isInHeaderFooter_eq_true {res : Result} {idx : Int} {b : Bands} {cl : Bo
     | header => exact Or.inl ⟨r, hr, ⟨hp, hb⟩, hm⟩
     | footer => exact Or.inr ⟨r, hr, ⟨hp, hb⟩, hm⟩
 
-theorem isInHeaderFooter_false_of_outside {res : Result} {idx : Int} {b : Bands} {cl : Bool} {f : Frag}
-    (ht : inTop b f = false) (hb : inBottom b f = false) : isInHeaderFooter res idx b cl f = false := by
-  cases h : isInHeaderFooter res idx b cl f with
+theorem isInHeaderFooter_false_of_outside {res : Result} {idx : Int} {b : Bands} {f : Frag}
+    (ht : inTop b f = false) (hb : inBottom b f = false) : isInHeaderFooter res idx b f = false := by
+  cases h : isInHeaderFooter res idx b f with
   | false => rfl
   | true =>
     obtain ⟨k, r, _, _, hin, _⟩ := isInHeaderFooter_eq_true.mp h
     cases k <;> simp [inRegion, ht, hb] at hin
 
 theorem isInHeaderFooter_no_regions {res : Result} (hh : res.headers = []) (hf : res.footers = [])
-    (idx : Int) (b : Bands) (cl : Bool) (f : Frag) : isInHeaderFooter res idx b cl f = false := by
+    (idx : Int) (b : Bands) (f : Frag) : isInHeaderFooter res idx b f = false := by
   simp [isInHeaderFooter, hh, hf]
+
+/-- a glyph is removed from a character-level page exactly if it occurs in a line group whose
+assembled line is judged a header or footer -/
+theorem isRemoved_charLevel_eq_true {res : Result} {idx : Int} {fs : List Frag} {ph : Rat} {f : Frag}
+    (h : isCharacterLevel fs = true) :
+    isRemoved res idx fs ph f = true ↔
+      ∃ g ∈ charLines fs, f ∈ g ∧ ∃ l, assembleLine g = some l ∧
+        isInHeaderFooter res idx (bands res.cfg (assembleFragmentsIntoLines fs) ph) l = true := by
+  rw [isRemoved_charLevel h]
+  simp only [List.any_eq_true, removedLines, List.mem_filter, List.contains_iff_mem, lineRemoved]
+  constructor
+  · rintro ⟨g, ⟨hg, hl⟩, hf⟩
+    refine ⟨g, hg, hf, ?_⟩
+    cases ha : assembleLine g with
+    | none => rw [ha] at hl; cases hl
+    | some l => rw [ha] at hl; exact ⟨l, rfl, hl⟩
+  · rintro ⟨g, hg, hf, l, ha, hl⟩
+    exact ⟨g, ⟨hg, by rw [ha]; exact hl⟩, hf⟩
+
+theorem isRemoved_no_regions {res : Result} (hh : res.headers = []) (hf : res.footers = [])
+    (idx : Int) (fs : List Frag) (ph : Rat) (f : Frag) : isRemoved res idx fs ph f = false := by
+  unfold isRemoved
+  split
+  · simp [removedLines, lineRemoved, isInHeaderFooter_no_regions hh hf]
+    intro g _ hl
+    cases ha : assembleLine g <;> simp [ha] at hl
+  · exact isInHeaderFooter_no_regions hh hf _ _ _
 
 theorem filterFragments_no_regions {res : Result} (hh : res.headers = []) (hf : res.footers = [])
     (idx : Int) (fs : List Frag) (ph : Rat) : filterFragments res idx fs ph = fs := by
-  simp [filterFragments, isInHeaderFooter_no_regions hh hf]
+  simp [filterFragments_eq, isRemoved_no_regions hh hf]
 
 /-! ## Detection -/
 
